@@ -4,7 +4,9 @@ import CallbagModel.Inv.Concat
 import CallbagModel.Inv.Flatten
 import CallbagModel.Inv.ForEach
 import CallbagModel.Inv.FromIter
+import CallbagModel.Inv.Fuse
 import CallbagModel.Inv.Merge
+import CallbagModel.Inv.Readable
 import CallbagModel.Inv.Relay
 import CallbagModel.Inv.Share
 import CallbagModel.Inv.ShareWeak
@@ -60,6 +62,11 @@ theorem C01_merge {α : Type} (n : Nat) :
 theorem C01_flatten {α : Type} :
     ∀ s, SReach (Flatten.machine α) s → SafeFor 1 s :=
   fun s hs => safeFor_of_basicSafe _ s hs (Flatten.flatten_basicSafe s hs) 1 (by decide)
+
+theorem C01_pipe_of_two_relays {σ₁ σ₂ α β γ : Type} (k₁ : Relay.Kind σ₁ α β) (k₂ : Relay.Kind σ₂ β γ)
+    (h₁ : k₁.slotted = false → ∀ s a, (k₁.xfer s a).2 ≠ none) (h₂ : k₂.slotted = false → ∀ s b, (k₂.xfer s b).2 ≠ none) :
+    ∀ s, SReach (compose (Relay.machine k₁) (Relay.machine k₂)) s → SafeFor 1 s :=
+  fun s hs => safeFor_of_basicSafe _ s hs (Fuse.compose_relay_basicSafe k₁ k₂ h₁ h₂ s hs) 1 (by decide)
 
 
 /-- `share`, EVERY conformant environment (nested fan-out included): the only phase-level violations share can commit are deliveries
